@@ -54,6 +54,8 @@ crypto_entropy_read(uint8_t * buf, size_t buflen)
 #endif
 	if (ent_pos >= ent_n || ent_q[ent_pos].fail) {
 		ent_pos++;
+		/* a failed read leaves unspecified bytes behind, not the caller's old ones */
+		drv_junk(buf, buflen);
 		return (-1);
 	}
 	for (i = 0; i < buflen; i++)
@@ -418,21 +420,26 @@ main(int argc, char ** argv)
 			uint8_t * priv = drv_unhex(tok[1], &l, 0);
 			uint8_t * pub = outbuf(CRYPTO_DH_PUBLEN);
 			ent_push(tok[2]);
-			if (crypto_dh_generate_pub(pub, priv) == 0) {
+			int rc = crypto_dh_generate_pub(pub, priv);
+			drv_scribble_free(priv, l);	/* arguments are the caller's again */
+			if (rc == 0) {
 				printf("ok "); drv_puthex(pub, CRYPTO_DH_PUBLEN); printf("\n");
 			} else
 				printf("err\n");
-			free(priv); free(pub);
+			free(pub);
 		} else if (n == 4 && strcmp(tok[0], "compute") == 0) {
-			uint8_t * pub = drv_unhex(tok[1], &l, 0);
+			size_t lp; uint8_t * pub = drv_unhex(tok[1], &lp, 0);
 			uint8_t * priv = drv_unhex(tok[2], &l, 0);
 			uint8_t * key = outbuf(CRYPTO_DH_KEYLEN);
+			int rc;
 			ent_push(tok[3]);
-			if (crypto_dh_compute(pub, priv, key) == 0) {
+			rc = crypto_dh_compute(pub, priv, key);
+			drv_scribble_free(pub, lp); drv_scribble_free(priv, l);
+			if (rc == 0) {
 				printf("ok "); drv_puthex(key, CRYPTO_DH_KEYLEN); printf("\n");
 			} else
 				printf("err\n");
-			free(pub); free(priv); free(key);
+			free(key);
 		} else if (n == 3 && strcmp(tok[0], "generate") == 0) {
 			uint8_t * pub = outbuf(CRYPTO_DH_PUBLEN);
 			uint8_t * priv = outbuf(CRYPTO_DH_PRIVLEN);
